@@ -143,6 +143,29 @@ def gen_mixed_batch(pyrng, nmax=10):
     return c
 
 
+def gen_mixed_dtype(pyrng, nmax=10):
+    """the start vector's dtype is wider than the operator's: a complex start vector on a real operator, or a float64 start vector
+    on a float32 operator (entries exactly representable in float32, so binary64 arithmetic on them is what NumPy does after
+    promotion).  The factorisation must be that of the start vector given (first column v/||v||), in the promoted dtype."""
+    g = np.random.default_rng(pyrng.getrandbits(64))
+    while True:
+        c = gen_case(pyrng, frozenset(), nmax=nmax, force=dict(kind="dense", start="random", n=int(g.integers(2, nmax + 1))))
+        if not c["cplx"]:
+            break
+    V = dec(c["v"])
+    if g.random() < 0.6:
+        V = V.real + 1j * g.normal(size=V.shape)
+        c.update(cplx=True, op_cplx=False, mixed="complex start / real operator")
+    else:
+        M = dec(c["parts"][0]).real.astype(np.float32).astype(np.float64)
+        c["parts"] = [enc(M)]
+        c.update(op_f32=True, mixed="float64 start / float32 operator")
+    c["v"] = enc(V)
+    c["tol"] = float(g.choice([1e-7, 1e-6, 1e-3]))
+    c["entry"] = str(g.choice(["arnoldi", "Arnoldi()"])) if c["batch"] == 0 else "arnoldi"
+    return c
+
+
 def gen_small_scale(pyrng, nmax=10):
     """operators of small overall scale (1e-4 .. 1e-9) with the usual tolerances: every remainder norm is far below the ABSOLUTE
     tol/2 although the Krylov space is not exhausted (region of flag arnoldi_absolute_clip)"""
@@ -299,13 +322,14 @@ def dense_of(c):
         S = np.eye(c["n"], dtype=complex)[list(p[0])]          # (P x)_i = x[perm[i]]
     else:
         S = dec(p[0])
-    return S if c["cplx"] else S.real
+    return S if c.get("op_cplx", c["cplx"]) else S.real
 
 
 def build_op(c):
     k, p = c["kind"], c["parts"]
-    dt = np.complex128 if c["cplx"] else np.float64
-    cast = (lambda a: np.ascontiguousarray(dec(a).astype(dt))) if c["cplx"] else (lambda a: np.ascontiguousarray(dec(a).real))
+    opc = c.get("op_cplx", c["cplx"])          # the operator's dtype may differ from the start vector's (c["cplx"])
+    dt = np.complex128 if opc else (np.float32 if c.get("op_f32") else np.float64)
+    cast = (lambda a: np.ascontiguousarray(dec(a).astype(dt))) if opc else (lambda a: np.ascontiguousarray(dec(a).real.astype(dt)))
     if k == "kron":
         return ops.Kronecker(ops.Dense(cast(p[0])), ops.Dense(cast(p[1])))
     if k == "diag":
